@@ -12,7 +12,7 @@ CONSTANTS
   Sentences <- RealSentences
   ResetMin = 1800
   DefaultVer = 1
-  Family = "snap"
+  Family = "snapx"
   EmitAt = 12
   MaxOps = 12
   StakeVecs <- Vecs4
